@@ -155,7 +155,17 @@ pub fn gen_inputs(rng: &mut StdRng, n: usize, with_trailing: bool) -> Vec<Input>
         let prog = random_walk(rng, &WalkCfg { nsyms: ns, props: p, max_dist: 4096, lit_alphabet: 6 });
         let enc = coding::encode_program(&prog, p);
         let len = enc.out.len() as u64;
-        let trailing: Vec<u8> = if with_trailing { (0..[0usize, 1, 5, 64][i % 4]).map(|_| rng.gen()).collect() } else { vec![] };
+        let trailing: Vec<u8> = if with_trailing {
+            // arbitrary bytes, and runs of null bytes (which the .xz format would call "stream padding")
+            match i % 7 {
+                4 => vec![0; 4],
+                5 => vec![0; 12],
+                6 => vec![0; 8],
+                _ => (0..[0usize, 1, 5, 64][i % 4]).map(|_| rng.gen()).collect(),
+            }
+        } else {
+            vec![]
+        };
         // LZMA, size in header (no marker): consumption is fixed by the property
         let mut d = lzma_header(p, 4096, Some(len));
         d.extend_from_slice(&enc.payload);
